@@ -23,6 +23,9 @@ pub enum Op {
     Probe { xa: usize, xk: Vec<u8>, ya: usize, yk: Vec<u8>, same: bool, empty_fp: bool },
     /// run the session A → B
     Session,
+    /// the reconciled document is removed from the stores of one side and created again (empty); the
+    /// store values stay alive, so anything a store remembers about the old document is still there
+    Recreate { side: u8 },
     /// an entry of another document held in the same store (`which`: 0 = the document with the
     /// smaller id, 1 = the one with the greater id); the ordered map knows nothing of it
     Foreign { side: u8, which: u8, a: usize, key: Vec<u8>, c: Option<usize>, ts: u64 },
@@ -90,6 +93,10 @@ impl Property for C08 {
     fn corpus(&self) -> Vec<(String, Vec<Op>)> {
         let p = |side: u8, a: usize, k: &[u8], c: Option<usize>, ts: u64| Op::Put { side, a, key: k.to_vec(), c, ts };
         vec![
+            ("rejoin-after-removal".into(), vec![Op::Cfg { max_set: 1, split: 2 },
+                p(2, 0, b"a", Some(0), 5), p(2, 1, b"b", Some(1), 5), Op::Session,
+                Op::Recreate { side: 0 }, Op::Session,
+                Op::Recreate { side: 1 }, Op::Session]),
             ("wraparound-probe".into(), vec![Op::Cfg { max_set: 1, split: 2 },
                 p(0, 0, b"a", Some(0), 5), p(0, 1, b"b", Some(1), 5), p(0, 2, b"c", Some(2), 5), p(0, 1, b"", Some(0), 5),
                 Op::Probe { xa: 2, xk: b"b".to_vec(), ya: 0, yk: b"b".to_vec(), same: false, empty_fp: true },
@@ -141,6 +148,14 @@ impl Property for C08 {
             ops.push(Op::Probe { xa, xk, ya, yk, same: rng.chance(1, 5), empty_fp: rng.chance(1, 2) });
         }
         ops.push(Op::Session);
+        if rng.chance(1, 4) {
+            // one side loses the document and joins again; the other still holds everything
+            ops.push(Op::Recreate { side: rng.below(2) as u8 });
+            for _ in 0..rng.below(3) {
+                ops.push(Op::Put { side: rng.below(3) as u8, a: rng.below(3), key: gen_key(rng), c: if rng.chance(1, 4) { None } else { Some(rng.below(3)) }, ts: *rng.pick(&crate::c02::TIMES) });
+            }
+            ops.push(Op::Session);
+        }
         if rng.chance(1, 12) {
             // long keys: every key behind a common 255-byte prefix
             for o in ops.iter_mut() {
@@ -292,6 +307,24 @@ impl Property for C08 {
                         lines.push(Line::oracle(format!("mproc 11 {nshex} {NOW} {max_set} {split} {ptok}"), outs[0].clone()));
                         let same = outs[0] == outs[1] && outs[0] == m;
                         lines.push(Line::oracle("sconst backends-agree", if same { "backends-agree".to_string() } else { format!("differ mem=[{}] file=[{}] map=[{}]", outs[0], outs[1], m) }));
+                    }
+                    Op::Recreate { side } => {
+                        let i = (*side % 2) as usize;
+                        let mut outs = vec![];
+                        for s in [&mut mem[i], &mut fil[i]] {
+                            // (a session leaves the replica marked open in the store)
+                            s.store.close_replica(nsid);
+                            let r = match s.store.remove_replica(&nsid) { Ok(()) => "ok".to_string(), Err(e) => format!("err:{e}") };
+                            s.store.new_replica(ns.clone())?;
+                            s.store.close_replica(nsid);
+                            outs.push(r);
+                        }
+                        maps[i] = MapStore::new();
+                        lines.push(Line::model(format!("tremove {} {nshex}", i + 1), outs[0].clone()));
+                        lines.push(Line::model(format!("tns {} {nshex} 1 {}", i + 1, hex(&ns.to_bytes())), "inserted"));
+                        lines.push(Line::model(format!("new {}", i + 11), "ok"));
+                        let same = outs[0] == outs[1];
+                        lines.push(Line::oracle("sconst backends-agree", if same { "backends-agree".to_string() } else { format!("differ mem={} file={}", outs[0], outs[1]) }));
                     }
                     Op::Session => {
                         // the same session on each backend; transcripts as step lines
